@@ -12,14 +12,15 @@ package archiver
 //
 // Space
 //   A  single files: polynomial x content kind x size x reader behaviour
-//        contents: zeros, period-p (p in 1,2,64,4099), LCG seeds 0..7
+//        contents: zeros, period-p (p in 1,2,64,4099), LCG seeds 0..7, LCG data with two long
+//                  runs of zeros that start in the middle of a chunk (holes)
 //        sizes   : 0, 1, 512Ki-1/+0/+1, 1Mi-1/+0/+1, 1.5Mi-1/+0/+1,
 //                  8Mi-1/+0/+1, 8Mi+512Ki, 20Mi
 //        readers : full, fixed 7 / 4096 / 512Ki-1 / 512Ki / 512Ki+1,
 //                  fixed 1 (files <= 1.5Mi+1), alternating 1/65536,
 //                  full with (n, EOF) together, 4096 with (n, EOF) together
-//        quick tier: polynomial A, 3 content kinds, files >= 8 MiB with 5 of
-//        the 10 readers; thorough: two polynomials, 13 content kinds, all.
+//        quick tier: polynomial A, 4 content kinds, files >= 8 MiB with 5 of
+//        the 10 readers; thorough: two polynomials, 15 content kinds, all.
 //        The reader variants of one (polynomial, content, size) go through the
 //        same worker one after the other.
 //   B  sequences of 1..3 files (all ordered pairs/triples over 8 small files,
@@ -226,6 +227,21 @@ func (c verifC17Content) gen(n int) []byte {
 		return buf
 	case "lcg":
 		return verifC17LCG(uint64(c.P), n)
+	case "holes":
+		// data with long runs of zeros that begin in the middle of a chunk and cover whole 512 KiB read
+		// buffers (disk images, preallocated files): [700 KiB, 700 KiB + 3 MiB) and [n - 1200 KiB, n - 100 KiB)
+		buf := verifC17LCG(uint64(c.P), n)
+		zero := func(from, to int) {
+			if from < 0 {
+				from = 0
+			}
+			for i := from; i < to && i < n; i++ {
+				buf[i] = 0
+			}
+		}
+		zero(700*1024, 700*1024+3*1024*1024)
+		zero(n-1200*1024, n-100*1024)
+		return buf
 	}
 	panic("unknown content kind")
 }
@@ -471,9 +487,9 @@ func TestVerif_C17(t *testing.T) {
 		}
 	}
 
-	contents := []verifC17Content{{"zero", 0}, {"period", 4099}, {"lcg", 0}}
+	contents := []verifC17Content{{"zero", 0}, {"period", 4099}, {"lcg", 0}, {"holes", 3}}
 	if r.Thorough() {
-		contents = []verifC17Content{{"zero", 0}, {"period", 1}, {"period", 2}, {"period", 64}, {"period", 4099}}
+		contents = []verifC17Content{{"zero", 0}, {"period", 1}, {"period", 2}, {"period", 64}, {"period", 4099}, {"holes", 3}, {"holes", 4}}
 		for s := 0; s < 8; s++ {
 			contents = append(contents, verifC17Content{"lcg", s})
 		}
